@@ -753,6 +753,8 @@ class NumEnv:
             return float(np.log(ev(args[0])))
         if kind == "inf":
             return float("inf")
+        if kind == "poison":
+            return float("nan")
         if kind == "lgamma_int":
             import math
 
